@@ -207,7 +207,7 @@ def instantiate(spec):
 def generate(rng, tier):
     while True:
         yield {"a": gen_fs(rng), "b": gen_fs(rng), "sa": gen_sfs(rng, "a"), "sb": gen_sfs(rng, "b"),
-               "g": gen_fcfg(rng)}
+               "sc": gen_sfs(rng, "c"), "g": gen_fcfg(rng)}
 
 
 def count_leaves(spec):
@@ -276,6 +276,33 @@ def run_case(case, drv):
                 if sorted(mr) != want:
                     res.violation("unify", "receiver does not denote the common instances of both structures",
                                   detail={"order": tag, "a": x, "b": y, "result": r}, scope=["shared_variables"])
+    # ---- chains: an argument that was already absorbed by an earlier unification -------------------------
+    sc = case.get("sc")
+    if sa is not None and sc is not None:
+        fx, fy, fz = build_sfs(sa), build_sfs(sb), build_sfs(sc)
+        m3 = drv.call("fs.meaning", paths=PATHS, vals=VALS, structures=[sa, sb, sc])
+        first = outcome(lambda: fx.unify(fy))
+        if first[0] == "ok":
+            want3 = sorted(set(m3[0]) & set(m3[1]) & set(m3[2]))
+            got3 = outcome(lambda: fz.unify(fy))
+            res.evals += 1
+            if not want3:
+                if got3 != ("exc", "FeatureStructuresNotCompatibleException"):
+                    res.violation("unify", "chain x.unify(y); z.unify(y): no common instance of the three, yet no exception",
+                                  detail={"x": sa, "y": sb, "z": sc, "impl": got3 if got3[0] != "ok" else "unified"},
+                                  scope=["shared_variables"])
+            elif got3[0] != "ok":
+                res.violation("unify", "chain x.unify(y); z.unify(y): compatible structures are refused: %s" % (got3,),
+                              detail={"x": sa, "y": sb, "z": sc}, scope=["shared_variables"])
+            else:
+                for who, obj in (("z", fz), ("y", fy), ("x", fx)):
+                    rr = read_sfs(obj)
+                    mr = drv.call("fs.meaning", paths=PATHS, vals=VALS, structures=[rr])[0]
+                    if sorted(mr) != want3:
+                        res.violation("unify", "chain x.unify(y); z.unify(y): %s does not denote the common instances of the three" % who,
+                                      detail={"x": sa, "y": sb, "z": sc, "read": rr}, scope=["shared_variables"])
+                        break
+            res.tag("unify_chain")
     # ---- FCFG membership ------------------------------------------------------------------------------
     gs = case["g"]
     st, fg = outcome(lambda: build_fcfg(gs))
